@@ -39,11 +39,16 @@ class NoBlack:
         self.G.subprocess = subprocess
 
 
-def generate_orm_source(classes, alternative_mappings=(), type_mappings=None, with_black=False):
-    """runs ClassDiagram -> ORMatic -> to_sqlalchemy_file on the given classes and returns the generated text"""
+LAST_DIAGRAM = [None]
+
+
+def generate_orm_source(classes, alternative_mappings=(), type_mappings=None, with_black=False, diagram=None):
+    """runs ClassDiagram -> ORMatic -> to_sqlalchemy_file on the given classes and returns the generated text;
+    `diagram`: an existing ClassDiagram to generate from (a second ORMatic over the same diagram object)"""
     from krrood.class_diagrams.class_diagram import ClassDiagram
     from krrood.ormatic.ormatic import ORMatic
-    diagram = ClassDiagram(list(classes))
+    diagram = diagram if diagram is not None else ClassDiagram(list(classes))
+    LAST_DIAGRAM[0] = diagram
     kwargs = {}
     if alternative_mappings:
         kwargs["alternative_mappings"] = list(alternative_mappings)
